@@ -512,7 +512,7 @@ def _gen_model_op(r, root, path, m, sp, malformed):
 
 
 _KEEP = []
-REP_ASSIGN = False     # whole-field assignments (`m.raw_x = deepcopy(m.raw_x)`): switched on by the checks that judge them
+REP_ASSIGN = True      # whole-field assignments (`m.raw_x = deepcopy(m.raw_x)`): switched on by the checks that judge them
 _TWO = '2000-01-01 open Assets:A USD, EUR\n2000-01-02 close Assets:A'
 FOREIGN = [
     # (class of the node, host text, host class, path)   - first or last token of the host store, or interior
